@@ -92,6 +92,12 @@ func colAlts() []colAlt {
 		{label: "Levels32x3", typ: "Levels32x3", declB: "type Level32 int32\n\nconst (\n\tL32a Level32 = iota\n\tL32b\n)\n\ntype Levels32x3 [3]Level32\n"},
 		// a field written under the key "-" in a jsonb struct
 		{label: "DashKey", typ: "DashKey", declB: "type DashKey struct {\n\tNick string\n\tOdd  int `json:\"-,\"`\n\tTags []string\n}\n"},
+		// a union member that has the marker method only through an embedded member
+		{label: "Sketch", typ: "Sketch", declB: tblUnion + "\ntype Disc struct {\n\tCircle\n\tTint string\n}\n\ntype Sketch struct {\n\tMain Shape\n\tNote string\n}\n"},
+		// a composite with a field whose type prints itself (fmt.Stringer)
+		{label: "PosTone", typ: "PosTone", declB: "type Tone uint8\n\nconst (\n\tDark Tone = iota\n\tLight\n)\n\nfunc (t Tone) String() string {\n\tif t == Dark {\n\t\treturn \"Dark\"\n\t}\n\treturn \"Light\"\n}\n\ntype PosTone struct {\n\tA int\n\tT Tone\n}\n"},
+		// a type whose validation function name is longer than an SQL identifier may be
+		{label: "LongName", typ: "OpeningHoursExceptionDuringPublicHolidays", declB: "type OpeningHoursExceptionDuringPublicHolidays struct {\n\tLabel string\n\tTags  []string\n}\n"},
 		{label: "Attrs", typ: "Attrs", declB: "type Attrs map[string]int\n"},
 		{label: "Profiles", typ: "Profiles", declB: "type Profiles []Pos2\n\ntype Pos2 struct {\n\tLabel string\n\tX     int\n}\n"},
 		{label: "Shape", typ: "Shape", declB: tblUnion},
